@@ -237,3 +237,71 @@ Proof.
   split; [vm_compute; reflexivity|].
   split; [eexists; vm_compute; reflexivity|vm_compute; reflexivity].
 Qed.
+
+(* ---- templates on any number of lines (Proofs/LineIrrelevance.v: line numbers only show in the line of an
+   error; Proofs/LinesPipeline.v: DensL is Dens without the demand that tokens stand on the first line) *)
+From TW Require Import LineIrrelevance LinesPipeline.
+
+Theorem C03_lines_only_matter_in_errors cx f en ss ss' out :
+  map strip_s ss = map strip_s ss' -> sim (eval_program cx f en ss out) (eval_program cx f en ss' out).
+Proof. exact (lines_do_not_matter cx f en ss ss' out). Qed.
+Print Assumptions C03_lines_only_matter_in_errors.
+
+Theorem C03_from_source_bytes_to_output_any_lines its ss ns eof fs gd (data : list (bytes * value)) :
+  source_ok its = true -> place (spell its) 0 its = flats ss ++ [eof] -> wf_ss ss -> DensL ss ns ->
+  env_from_map gd = EnvOk [data] ->
+  forallb (fun kv : bytes * value => clean (snd kv)) data = true -> nodes_ok ns ->
+  lex_all (spell its) = Some (flats ss ++ [eof]) /\
+  parse_source (spell its) = ParsedOk (mkProgram (asts ss) None [] [] []) /\
+  exists K, (K <= eval_fuel)%nat ->
+    match run_nodes model_call_spec fs [data] ns with
+    | TOk out SigNormal _ => evaluate_string cx0 (spell its) gd = RenderOk out
+    | TOk _ _ _ => True
+    | TFail => exists ln msg, evaluate_string cx0 (spell its) gd = RenderErr ln msg
+    | TNoFuel | TUnprintable => True
+    end.
+Proof. exact (source_renders_lines its ss ns eof fs gd data). Qed.
+Print Assumptions C03_from_source_bytes_to_output_any_lines.
+
+(* non-vacuity: a list template written the usual way, on five lines *)
+Definition nl5 := String (Ascii.ascii_of_nat 10) EmptyString.
+Definition list_src : string := ("<ul>" ++ nl5 ++ "@each(v in xs)" ++ nl5 ++ "  <li>{{ v }}</li>" ++ nl5 ++ "@end" ++ nl5 ++ "</ul>" ++ nl5)%string.
+
+Example C03_five_line_template :
+  let ns := [NText (bs ("<ul>" ++ nl5)); NEach (bs "v") (XVar (bs "xs")) [NText (bs (nl5 ++ "  <li>")); NPrint (XVar (bs "v")); NText (bs ("</li>" ++ nl5))] None;
+             NText (bs (nl5 ++ "</ul>" ++ nl5))]%string in
+  exists its tg ss eof,
+    lex_all (bs list_src) = Some (flats ss ++ [eof]) /\ unlex (bs list_src) 0 (flats ss ++ [eof]) = (its, tg) /\
+    spell its = bs list_src /\ source_ok its = true /\ place (spell its) 0 its = flats ss ++ [eof] /\
+    wf_ss ss /\ DensL ss ns /\ nodes_ok ns /\
+    evaluate_string cx0 (bs list_src) [(bs "xs"%string, GSlice [GInt 1; GInt 2])] =
+      RenderOk (bs ("<ul>" ++ nl5 ++ nl5 ++ "  <li>1</li>" ++ nl5 ++ nl5 ++ "  <li>2</li>" ++ nl5 ++ nl5 ++ "</ul>" ++ nl5)%string).
+Proof.
+  intro ns.
+  destruct (lex_all (bs list_src)) as [ts|] eqn:E; [|vm_compute in E; discriminate E].
+  vm_compute in E. injection E as <-.
+  match goal with |- exists its tg ss eof, Some (?t1 :: ?kw :: ?lp :: ?v :: ?inn :: ?xs :: ?rp :: ?t2 :: ?lb :: ?v2 :: ?rb :: ?t3 :: ?en :: ?t4 :: ?eoft :: nil) = _ /\ _ =>
+    set (ss0 := [TText t1; TEach kw lp v inn rp en (CAtom xs) [TText t2; TCode lb rb (CAtom v2); TText t3] None; TText t4]);
+    set (e0 := eoft)
+  end.
+  destruct (unlex (bs list_src) 0 (flats ss0 ++ [e0])) as [its tg] eqn:U.
+  exists its, tg, ss0, e0.
+  split; [reflexivity|]. split; [exact U|].
+  vm_compute in U. injection U as <- <-.
+  split; [vm_compute; reflexivity|]. split; [vm_compute; reflexivity|]. split; [vm_compute; reflexivity|].
+  split.
+  { subst ss0. cbn [wf_ss wf_s wf wf_list_with llev rlev]. unfold tprec, INF. cbn [ttype].
+    repeat split; try reflexivity; try discriminate; try (vm_compute; lia). }
+  split.
+  { subst ns ss0. apply LsCons; [apply DenL_text; vm_compute; reflexivity|].
+    apply LsCons; [|apply LsCons; [apply DenL_text; vm_compute; reflexivity|apply LsNil]].
+    apply DenL_each.
+    - vm_compute. reflexivity.
+    - cbn. repeat split.
+    - apply LsCons; [apply DenL_text; vm_compute; reflexivity|].
+      apply LsCons; [apply LCode; cbn; repeat split|].
+      apply LsCons; [apply DenL_text; vm_compute; reflexivity|apply LsNil].
+    - apply LlNone. }
+  split; [subst ns; cbn; repeat split|].
+  vm_compute. reflexivity.
+Qed.
